@@ -207,7 +207,7 @@ def c20(tier, seed):
 
 
 def c11(tier, seed):
-    return combine(fam_list(tier, ['events_q', 'events_cheap_q', 'events_split_q', 'events_order_q', 'matcher_events_q'], ['events_t', 'events_split_t', 'matcher_events_t', 'matcher_sim_t']) + [trace_family(tier, seed)], 'with_events',
+    return combine(fam_list(tier, ['events_q', 'events_cheap_q', 'events_split_q', 'events_order_q', 'matcher_events_q'], ['events_t', 'events_split_t', 'matcher_events_t', 'matcher_sim_t']) + [trace_family(tier, seed), fx_family(tier)], 'with_events',
                    'cell ledgers with a capital return / accumulation cell at every position; TLC judges the observed '
                    'per-lot apportionment (never on later acquisitions, sums to the net amount, nothing negative); '
                    'conservation of the amount, s122 refusal of unabsorbable returns, dividend inertness; '
